@@ -1124,6 +1124,97 @@ def r8_live_components(rep, src):
     return n_inst
 
 
+def r9_compare_by_interpretation(rep, src, tier):
+    """the comparison itself, by interpretation: NativeVersion objects built by the real constructor for a family of version strings --
+    epochs (absent, 0, leading zeros, larger), tildes, letters against digits against punctuation, digit runs with leading zeros and of
+    different lengths, parts of which one is a prefix of the other, absent and zero revisions -- and `_compare` interpreted (sa.heap) on
+    every ordered pair; the sign is that of dpkg's algorithm (implemented here as the reference: epoch as a number, then upstream, then
+    revision, each by alternating non-digit runs -- '~' before the end before letters before everything else -- and numbers)."""
+    import itertools
+    from .. import heap as H
+    mod = src.mod(M)
+    init = mod.method('NativeVersion', '__init__')
+    cmpf = mod.method('NativeVersion', '_compare')
+    if init is None or cmpf is None:
+        raise AnalysisError('%s:NativeVersion.__init__ / _compare not found' % M)
+    rep.saw_func(cmpf)
+
+    def order(c):
+        return -1 if c == '~' else 0 if c.isdigit() else ord(c) if c.isalpha() else ord(c) + 256
+
+    def verrevcmp(a, b):
+        i = j = 0
+        while i < len(a) or j < len(b):
+            first = 0
+            while (i < len(a) and not a[i].isdigit()) or (j < len(b) and not b[j].isdigit()):
+                ac = order(a[i]) if i < len(a) and not a[i].isdigit() else 0 if i >= len(a) or a[i].isdigit() else 0
+                bc = order(b[j]) if j < len(b) and not b[j].isdigit() else 0
+                if ac != bc:
+                    return -1 if ac < bc else 1
+                i += (i < len(a) and not a[i].isdigit())
+                j += (j < len(b) and not b[j].isdigit())
+            while i < len(a) and a[i] == '0':
+                i += 1
+            while j < len(b) and b[j] == '0':
+                j += 1
+            while i < len(a) and a[i].isdigit() and j < len(b) and b[j].isdigit():
+                if not first:
+                    first = ord(a[i]) - ord(b[j])
+                i += 1
+                j += 1
+            if i < len(a) and a[i].isdigit():
+                return 1
+            if j < len(b) and b[j].isdigit():
+                return -1
+            if first:
+                return -1 if first < 0 else 1
+        return 0
+
+    def split(s_):
+        ep, rest = (s_.split(':', 1) if ':' in s_ and s_.split(':', 1)[0].isdigit() else ('0', s_))
+        up, rev = rest.rsplit('-', 1) if '-' in rest else (rest, '0')
+        return int(ep), up, rev
+
+    def ref(a, b):
+        (ea, ua, ra), (eb, ub, rb) = split(a), split(b)
+        if ea != eb:
+            return -1 if ea < eb else 1
+        return verrevcmp(ua, ub) or verrevcmp(ra, rb)
+    FAMILY = ['1.0', '1.00', '0:1.0', '1:0.5', '01:0.5', '2:0', '1.0-0', '1.0-1', '1.0-01', '1.0~rc1', '1.0~', '1.0~~', '1.0a', '1.0+', '1.0.', '1.0.0', '1.10', '1.9',
+              '1.0-1~', '1.0-1a', '1a', '1', 'a', '~', '1+b1', '1-1-1', '1:1:1']
+    if tier == 'thorough':
+        FAMILY += ['1.0-a', '1.0-+', '0', '00', '0~0', '9', '10', '010', '1.a1', '1.a01', '1.-', '1.~1', '1..1', '2~~a', '2~a', '2a~', '0:0-0', '1.0-1.0', '1.0-1-0']
+    heap = H.Heap(mod)
+    heap.native_regex = True
+    heap.intercept_setattr = True
+    it = H.Interp(heap)
+    objs = {}
+    for s_ in FAMILY:
+        v = heap.alloc('NativeVersion', {})
+        try:
+            it.call(H.Closure(init.node, {}, v, init.cls), [s_])
+        except H.Raised as x:
+            raise AnalysisError('the valid version %r cannot be constructed (%s): decided under C03.R7' % (s_, x.exc))
+        objs[s_] = v
+    bad, n = None, 0
+    for a, b in itertools.product(FAMILY, repeat=2):
+        n += 1
+        try:
+            r = it.call(H.Closure(cmpf.node, {}, objs[a], cmpf.cls), [objs[b]])
+        except H.Raised as x:
+            r = 'raises %s' % x.exc
+        want = ref(a, b)
+        got = r if isinstance(r, str) else (r > 0) - (r < 0) if isinstance(r, int) and not isinstance(r, bool) else 'gives %r' % (r,)
+        if got != want and bad is None:
+            bad = 'Version(%r) compared with Version(%r) %s; dpkg orders them %s' % (a, b, got if isinstance(got, str) else 'gives %d' % got,
+                                                                                        {-1: 'first < second', 0: 'as equal', 1: 'first > second'}[want])
+    rep.analysed['paths'] += n
+    if bad:
+        rep.fail('C03.R9', cmpf.site, 'the order of dpkg on a family of versions (interpreted)', bad, where=cmpf.where)
+    else:
+        rep.ok('C03.R9', cmpf.site, 'the order of dpkg on a family of versions (interpreted)', '%d ordered pairs of %d versions' % (n, len(FAMILY)))
+
+
 def check(src, rep, tier):
     rep.explanation = ('C03: (R1) operator table.  (R2) every path of NativeVersion._compare after the conversion prologue is enumerated with '
                        'linear facts on L = int(self.epoch or "0"), R = int(other.epoch or "0"): -1 only under L<R, 1 only under L>R, the '
@@ -1148,10 +1239,16 @@ def check(src, rep, tier):
     fam_holds = len(rep.violations) == n_v and len(rep.errors) == n_e
     common.SoftErrors(rep, lambda: fam_holds, 'the interpreted family of version strings, which holds').guard('C03.R7', C14.r1_accepted_set, src, 'C03.R7', True)
     rep.guard('C03.R1', r1_operators, src)
-    rep.guard('C03.R2', r2_compare, src)
-    rep.guard('C03.R3', r3_string_compare, src)
-    rep.guard('C03.R3', r3b_order_chain, src)
-    rep.guard('C03.R4', r4_part_compare, src)
+    rep.need('C03.R9', 1)
+    n_v, n_e = len(rep.violations), len(rep.errors)
+    rep.guard('C03.R9', r9_compare_by_interpretation, src, tier)
+    order_holds = len(rep.violations) == n_v and len(rep.errors) == n_e
+    # (the path-level readings of the comparison routines: exact for ALL versions when the routines are in their vocabulary)
+    soft = common.SoftErrors(rep, lambda: order_holds, 'the interpreted comparisons of a family of versions (C03.R9), which agree with dpkg')
+    soft.guard('C03.R2', r2_compare, src)
+    soft.guard('C03.R3', r3_string_compare, src)
+    soft.guard('C03.R3', r3b_order_chain, src)
+    soft.guard('C03.R4', r4_part_compare, src)
     rep.guard('C03.R5', r5_hash, src)
     rep.need('C03.R6', 2)
     rep.guard('C03.R6', r6_unbounded_conversions, src)
